@@ -109,6 +109,43 @@ CLAIMED = {
         design_ref="DESIGN.md §6 C08",
         note="Trusted: Coq kernel + vm_compute; model tied by differential testing; two fix: commits (aa35b26 strip panic on SALIDA, d9ddfb3).",
         technique="Coq proof (needed-keys congruence of weighted_parts + key-filter lemma) + exact strip correspondence + with/without-strip oracle"),
+    "C09": dict(
+        text="Machine-checked theorems for every component list with n steps: for every permutation sigma of the steps, "
+             "energy_performance of the permuted building returns the same error or, carrier by carrier, the same "
+             "weighted parts (hence the same step A/B results, totals, RER), the same structure and the same step "
+             "records in permuted order (C09_perm, C09_perm_steps); for every m >= 1, with the values of both layouts in "
+             "the domain, subdivision into m equal sub-steps gives the same weighted parts and every step record replaced "
+             "by m copies scaled by 1/m, load matching factor unchanged (C09_subdivide); the derived cogeneration factor "
+             "is invariant in both cases (needs the annual-ratio factor, fix 55df7f9). Proofs: homogeneity of the step "
+             "functions (Proofs/Homog.v), annual sums invariant under permutation and block repetition, weighted parts "
+             "depend on the context only through annual values. Oracle: permuted and subdivided (m in {2,3,4,7}) copies "
+             "of each building evaluated by the implementation.",
+        design_ref="DESIGN.md §6 C09",
+        note="Trusted: Coq kernel + vm_compute; model tied by differential testing; Q models f32.",
+        technique="Coq proof (homogeneity + permutation/block-sum lemmas + annual congruence of weighted parts) + metamorphic oracle on the implementation"),
+    "C10": dict(
+        text="Machine-checked data-level theorems: reordering the components (any permutation), splitting a component "
+             "into two with the same tags whose values add up, and renumbering system ids leave energy_performance "
+             "unchanged (same error, or the same carrier balances and factors) for every component list; what "
+             "normalisation gives a system (completion, auxiliary assignment) does not depend on the order in which the "
+             "hash set of ids is iterated, and the final order is fixed by a stable sort. Partial by nature: text-level "
+             "rewritings (comments, blank lines, header, BOM, CRLF, white space, explicit/omitted id 0) and repeated "
+             "evaluation in the same or another process are decided by the differential run on the implementation "
+             "(every base file rewritten and re-evaluated, all annual fields, outcome kinds and the DHW fraction compared).",
+        design_ref="DESIGN.md §6 C10",
+        note="Trusted: Coq kernel + vm_compute; model tied by differential testing. The f32 summation order (hash-map iteration) is not modelled; text-level layer not yet modelled in Coq.",
+        technique="Coq proof (tag-predicate equivalence of component lists) + metamorphic differential run on the implementation"),
+    "C11": dict(
+        text="Machine-checked theorem C11_energy: for every k > 0 and every component list whose values and scaled "
+             "values are in the domain (zero or >= 0.01 kWh), energy_performance of the building with all energies "
+             "(components and demands) multiplied by k is the scaled evaluation: same error, or the same structure and "
+             "factors with every step record, annual value and weighted part multiplied by k; load matching factors, "
+             "service shares, RER, RER_nrb, RER_onst unchanged. Area law from C04 (C11_area). A lemma documents why the "
+             "domain hypothesis is needed (the 1e-3 guard). Oracle: exact scale factors 2^-6..2^10 and 0.1, 3, 1000, area "
+             "factors, incl. the DHW renewable fraction.",
+        design_ref="DESIGN.md §6 C11",
+        note="Trusted: Coq kernel + vm_compute; model tied by differential testing. Invariance of the DHW fraction under scaling is a differential fact only (C15 model pending).",
+        technique="Coq proof (positive homogeneity of step functions lifted to contexts, weighted parts and totals) + metamorphic oracle"),
     "C12": dict(
         text="Machine-checked theorems for every component list: with both electricity sources declared, used_pv = "
              "f*min(pv,u), used_chp = f*min(chp, u-min(pv,u)), cogenerated electricity is used only when the on-site "
